@@ -16,15 +16,44 @@ import (
 // under a schedule controller to replay a schedule found by the solver.
 // ---------------------------------------------------------------------------
 
-type vListener struct{}
+type vListener struct {
+	id   int
+	done chan struct{} // native replay only: Accept really blocks until Close
+	once sync.Once
+}
+
+func vNewListener(id int) *vListener {
+	l := &vListener{id: id}
+	if !vSymbolic() {
+		l.done = make(chan struct{})
+	}
+	return l
+}
 
 func (l *vListener) Accept() (net.Conn, error) {
 	// no new connection arrives in the bounded scenario: Accept blocks until
 	// the listener is closed
-	vMark("accept")
+	if l.id == 1 {
+		vMark("accept2")
+	} else {
+		vMark("accept")
+	}
+	if !vSymbolic() {
+		<-l.done
+	}
 	return nil, net.ErrClosed
 }
-func (l *vListener) Close() error   { vMark("lclose"); return nil }
+func (l *vListener) Close() error {
+	if l.id == 1 {
+		vMark("lclose2")
+	} else {
+		vMark("lclose")
+	}
+	if !vSymbolic() {
+		l.once.Do(func() { close(l.done) })
+	}
+	return nil
+}
 func (l *vListener) Addr() net.Addr { return vAddr{} }
 
 func vT16Server() *Server {
@@ -51,8 +80,8 @@ func vT16Close(srv *Server) {
 	vMark("close_returned")
 }
 
-func vT16Serve(srv *Server) {
-	err := srv.Serve(&vListener{})
+func vT16Serve(srv *Server, lid int) {
+	err := srv.Serve(vNewListener(lid))
 	if err == nil {
 		vMark("serve_nil")
 	} else {
@@ -121,7 +150,7 @@ func VerifT16Close() {
 func VerifT16Serve() {
 	srv := vT16Server()
 	vEventBegin(srv)
-	vT16Serve(srv)
+	vT16Serve(srv, vParam("LID", 0))
 	vEventEnd()
 }
 
@@ -142,7 +171,7 @@ func VerifT16Replay() {
 	}
 	srv := vT16Server()
 	ctl := &vController{order: vVec.Schedule, waiting: map[string]chan struct{}{}, names: map[int64]string{},
-		finished: map[string]bool{}, unknown: "serve/Serve$1"}
+		finished: map[string]bool{}, unknown: "/Serve$1"}
 	vCtl = ctl
 	stop := make(chan struct{})
 	go ctl.pump(stop)
@@ -162,12 +191,16 @@ func VerifT16Replay() {
 	r := vParam("R", 1)
 	start("closeA", func() { vT16Close(srv) })
 	start("closeB", func() { vT16Close(srv) })
-	start("serve", func() { vT16Serve(srv) })
-	start("conn", func() {
-		// a stalled connection blocks for good: it counts as done for the replay
-		vOnStall = func() { ctl.finish("conn"); wg.Done() }
-		vT16Conn(srv, r)
-	})
+	start("serve", func() { vT16Serve(srv, 0) })
+	if r == -6 {
+		start("serve2", func() { vT16Serve(srv, 1) })
+	} else {
+		start("conn", func() {
+			// a stalled connection blocks for good: it counts as done for the replay
+			vOnStall = func() { ctl.finish("conn"); wg.Done() }
+			vT16Conn(srv, r)
+		})
+	}
 	done := make(chan struct{})
 	go func() { wg.Wait(); close(done) }()
 	select {
